@@ -52,6 +52,8 @@ CONFIGS = {
     # output folder and inputs given RELATIVE to the working directory of the first run; --resume is issued from another directory with an
     # absolute -o (what the saved parameters hold must not depend on where the first run was started)
     "relative-paths": dict(n_chroms=2, extra=[], relative=True),
+    # ... the same with the experiment described in a YAML file that is given by a relative path
+    "relative-yaml": dict(n_chroms=2, extra=[], relative=True, yaml=True),
     # many options away from their defaults, among them list-valued and derived ones: what .params stores is read back and every derived
     # setting is derived again by the resumed run
     "many-options": dict(n_chroms=2, extra=["--bam_tags", "RG,NM", "--matching_strategy", "precise", "--model_construction_strategy", "sensitive_ont",
@@ -78,6 +80,9 @@ def make_inputs(cfg, d, seed):
                 f.write("%s\tgrp%d\n" % (r.name, i % 3))
         i = extra.index("--read_group")
         extra[i + 1] = "file:%s:0:1:\t" % tbl
+    if cfg.get("yaml"):
+        with open(os.path.join(d, "exp.yaml"), "w") as f_:
+            f_.write('[\n  data format: "bam",\n  {\n    name: "%s",\n    long read files: ["%s"],\n    labels: ["lab"]\n  }\n]\n' % (pipeline.PREFIX, os.path.join(d, "r.bam")))
     if cfg.get("ref_gz"):
         import gzip
         os.makedirs(os.path.join(d, "gz"), exist_ok=True)
@@ -104,8 +109,11 @@ def args_for(cfg, d, out, extra, saves=None):
         if not os.path.isdir(gzd):
             shutil.copytree(os.path.join(d, "gz"), gzd)
         a[a.index("-r") + 1] = os.path.join(gzd, "g.fa.gz")
+    if cfg.get("yaml"):
+        i_ = a.index("--bam")
+        a[i_:i_ + 2] = ["--yaml", os.path.join(d, "exp.yaml")]
     if cfg.get("relative"):
-        for opt in ("-o", "--bam", "-r", "-g"):
+        for opt in ("-o", "--bam", "--yaml", "-r", "-g"):
             if opt in a:
                 a[a.index(opt) + 1] = os.path.relpath(a[a.index(opt) + 1], d)
     if cfg.get("gz"):
@@ -124,7 +132,7 @@ def run(chk, scratch):
                 "directory of a -t 1 run, after .params was written; the run is killed (os._exit) immediately before it and continued with --resume (every second point with --threads 3); "
                 "quick: every distinct call site (function, operation, file kind) of 2 configurations once + random fill; thorough: every crash "
                 "point of every configuration + multi-process kills. non-trivial = distinct call sites crashed at")
-    conf_names = list(CONFIGS) if thorough else ["multi-chrom-groups-exons", "annotation-free", "force-over-previous-run", "from-saved-assignments", "two-experiments", "inferred-genes", "file-name-groups-one-file", "many-options", "no-model-construction", "gz-reference", "relative-paths"]
+    conf_names = list(CONFIGS) if thorough else ["multi-chrom-groups-exons", "annotation-free", "force-over-previous-run", "from-saved-assignments", "two-experiments", "inferred-genes", "file-name-groups-one-file", "many-options", "no-model-construction", "gz-reference", "relative-paths", "relative-yaml"]
     if os.environ.get("VERIF_C07_CONFIGS"):       # debugging aid: restrict the run to some configurations (the verdict is then only about those)
         conf_names = [c for c in conf_names if c in os.environ["VERIF_C07_CONFIGS"].split(",")]
     total_points = 0
